@@ -117,6 +117,9 @@ class Share:
             raise SyntaxError("Share not 0-padded properly")
         if share_bit_length < 128:
             raise ValueError("not enough bits")
+        if (len(indices) - 7) * 10 - share_bit_length > 8:
+            # SLIP-0039: the padding of the share value never exceeds 8 bits
+            raise ValueError("Invalid mnemonic length")
         return cls(
             share_bit_length,
             id,
@@ -141,7 +144,7 @@ class Share:
         all_bits |= self.member_index
         all_bits <<= 4
         all_bits |= self.member_threshold - 1
-        padding = 10 - self.share_bit_length % 10
+        padding = -self.share_bit_length % 10
         all_bits <<= padding + self.share_bit_length
         all_bits |= self.value
         num_words = 4 + (padding + self.share_bit_length) // 10
